@@ -3,10 +3,10 @@ ObjectWithSchema.validate_config calls (level-1 correspondence of C20).  No hook
 from here for the duration of a `recording()` block."""
 import contextlib
 import math
-from numbers import Number
+from numbers import Number, Real
 
 from translate import schemas as tr
-from translate.schemas import g_str, g_z, g_q, g_list, TAG_CALLABLE, TAG_NUMBER
+from translate.schemas import g_str, g_z, g_q, g_list, TAG_CALLABLE, TAG_NUMBER, TAG_REAL
 
 
 class Skip(Exception):
@@ -36,6 +36,8 @@ class Conv:
                 t.append(self.world.class_ids[k.__name__])
         if isinstance(o, Number):
             t.append(TAG_NUMBER)
+        if isinstance(o, Real):
+            t.append(TAG_REAL)
         if callable(o):
             t.append(TAG_CALLABLE)
             try:
